@@ -238,41 +238,83 @@ or_expr:
 
 land_expr:
 		               or_expr
-	|	land_expr LAND or_expr
+	|	land_expr LAND
+		{
+			// the right operand is not evaluated unless the left one is true
+			$<expr>$.n = 0
+			$<expr>$.s = ""
+			if l, ok := expand(yylex, $1); ok && l != 0 {
+				$<expr>$.n = 1
+			} else {
+				yylex.(*lexer).noeval++
+			}
+		}
+		or_expr
 		{
 			$$.n = 0
 			$$.s = ""
-			if l, ok := expand(yylex, $1); ok && l != 0 {
-				if r, ok := expand(yylex, $3); ok && r != 0 {
-					$$.n = 1
-				}
+			if $<expr>3.n == 0 {
+				yylex.(*lexer).noeval--
+			} else if r, ok := expand(yylex, $4); ok && r != 0 {
+				$$.n = 1
 			}
 		}
 
 lor_expr:
 		             land_expr
-	|	lor_expr LOR land_expr
+	|	lor_expr LOR
+		{
+			// the right operand is not evaluated if the left one is true
+			$<expr>$.n = 0
+			$<expr>$.s = ""
+			if l, ok := expand(yylex, $1); ok && l != 0 {
+				$<expr>$.n = 1
+				yylex.(*lexer).noeval++
+			}
+		}
+		land_expr
 		{
 			$$.n = 0
 			$$.s = ""
-			if l, ok := expand(yylex, $1); ok && l != 0 {
+			if $<expr>3.n != 0 {
+				yylex.(*lexer).noeval--
 				$$.n = 1
-			} else if r, ok := expand(yylex, $3); ok && r != 0 {
+			} else if r, ok := expand(yylex, $4); ok && r != 0 {
 				$$.n = 1
 			}
 		}
 
 cond_expr:
 		lor_expr
-	|	lor_expr '?' expr ':' cond_expr
+	|	lor_expr '?'
+		{
+			// only the selected operand is evaluated
+			$<expr>$.n = 0
+			$<expr>$.s = ""
+			if l, ok := expand(yylex, $1); ok && l != 0 {
+				$<expr>$.n = 1
+			} else {
+				yylex.(*lexer).noeval++
+			}
+		}
+		expr ':'
+		{
+			$<expr>$.s = ""
+			if $<expr>3.n != 0 {
+				$<expr>$.n, _ = expand(yylex, $4)
+				yylex.(*lexer).noeval++
+			} else {
+				yylex.(*lexer).noeval--
+			}
+		}
+		cond_expr
 		{
 			$$.s = ""
-			if l, ok := expand(yylex, $1); ok {
-				if l != 0 {
-					$$.n, _ = expand(yylex, $3)
-				} else {
-					$$.n, _ = expand(yylex, $5)
-				}
+			if $<expr>3.n != 0 {
+				yylex.(*lexer).noeval--
+				$$.n = $<expr>6.n
+			} else {
+				$$.n, _ = expand(yylex, $7)
 			}
 		}
 
@@ -386,6 +428,9 @@ func expand(yylex yyLexer, x expr) (int, bool) {
 }
 
 func calculate(yylex yyLexer, l expr, op string, r expr) (x expr, ok bool) {
+	if yylex.(*lexer).noeval > 0 {
+		return x, true
+	}
 	if l, ok1 := expand(yylex, l); ok1 {
 		if r, ok2 := expand(yylex, r); ok2 {
 			ok = true
